@@ -13,7 +13,8 @@ import (
 )
 
 var extContracts = map[string]extContract{
-	"io.ReadFull": {writes: []int{1}, fresh: true, reason: "fills buf"},
+	"io.ReadFull":    {writes: []int{1}, fresh: true, reason: "fills buf"},
+	"io.ReadAtLeast": {writes: []int{1}, fresh: true, reason: "fills (part of) buf"},
 	"(encoding/binary.littleEndian).PutUint16": {writes: []int{1}, reason: "writes b[0:2]"},
 	"(encoding/binary.littleEndian).PutUint32": {writes: []int{1}, reason: "writes b[0:4]"},
 	"(encoding/binary.littleEndian).PutUint64": {writes: []int{1}, reason: "writes b[0:8]"},
